@@ -402,7 +402,11 @@ def _tail_scan(ck, rid, ap, cfg, last, sub, hdr_get):
     if ldef is None:
         raise AnalysisError("_apply_xheaders: the list %s is not bound exactly once" % L)
     it = alias_expand(ap.node, ldef)
-    splits = [c for c in ast.walk(it) if isinstance(c, ast.Call) and isinstance(c.func, ast.Attribute) and c.func.attr == "split" and len(c.args) == 1 and q.is_const(c.args[0], ",")]
+    bounded = [c for c in ast.walk(it) if isinstance(c, ast.Call) and isinstance(c.func, ast.Attribute) and c.func.attr in ("split", "rsplit") and c.args and q.is_const(c.args[0], ",") and (len(c.args) > 1 or q.kwarg(c, "maxsplit") is not None)]
+    if bounded:
+        ck.ob(rid, ap, ldef, False, "the candidates are the complete comma-split of X-Forwarded-For: a bounded split (%s) leaves an unsplit remainder that the scan can reach when trusted addresses repeat" % q.unparse(bounded[0])[:60], construct="bounded split of X-Forwarded-For")
+        return
+    splits = [c for c in ast.walk(it) if isinstance(c, ast.Call) and isinstance(c.func, ast.Attribute) and c.func.attr in ("split", "rsplit") and len(c.args) == 1 and not c.keywords and q.is_const(c.args[0], ",")]
     if len(splits) != 1:
         raise AnalysisError("_apply_xheaders: construction of the list %s not understood: %s" % (L, q.unparse(ldef)))
     rev = [c for c in ast.walk(it) if q.is_call(c, "reversed") or (isinstance(c, ast.Subscript) and isinstance(c.slice, ast.Slice) and c.slice.step is not None)]
@@ -572,7 +576,11 @@ def rule_precedence(ck):
             ck.ob(rid, ap, last.ast, False, "without X-Real-Ip the X-Forwarded-For candidate is used (default of the X-Real-Ip lookup is %s)" % sorted({q.dotted(d.ast.value) for d in defs_}))
             return
         raise AnalysisError("_apply_xheaders: X-Forwarded-For scan loop for %s not found" % scanv)
-    splits = [c for c in ast.walk(it) if isinstance(c, ast.Call) and isinstance(c.func, ast.Attribute) and c.func.attr == "split" and len(c.args) == 1 and q.is_const(c.args[0], ",")]
+    bounded = [c for c in ast.walk(it) if isinstance(c, ast.Call) and isinstance(c.func, ast.Attribute) and c.func.attr in ("split", "rsplit") and c.args and q.is_const(c.args[0], ",") and (len(c.args) > 1 or q.kwarg(c, "maxsplit") is not None)]
+    if bounded:
+        ck.ob(rid, ap, site, False, "the candidates are the complete comma-split of X-Forwarded-For: a bounded split (%s) leaves an unsplit remainder that the scan can reach when trusted addresses repeat" % q.unparse(bounded[0])[:60], construct="bounded split of X-Forwarded-For")
+        return
+    splits = [c for c in ast.walk(it) if isinstance(c, ast.Call) and isinstance(c.func, ast.Attribute) and c.func.attr in ("split", "rsplit") and len(c.args) == 1 and not c.keywords and q.is_const(c.args[0], ",")]
     if len(splits) != 1:
         raise AnalysisError("_apply_xheaders: scan iterable not understood: %s" % q.unparse(it))
     rev = [c for c in ast.walk(it) if q.is_call(c, "reversed") and any(x is splits[0] for x in ast.walk(c))]
@@ -782,6 +790,7 @@ MUTANTS = [
     ("lookup errors other than NONAME answer True", _in(NU, "is_valid_ip", replace_stmt(lambda st: isinstance(st, ast.Raise) and st.exc is None, lambda st: [parse_stmt("return True")])), "C32.valid-ip"),
     ("over-long input is 'valid'", _in(NU, "is_valid_ip", lambda fn: (lambda hs: (hs[0].body.__setitem__(slice(0, len(hs[0].body)), [parse_stmt("return True")]) or True) if hs else False)([h for h in ast.walk(fn) if isinstance(h, ast.ExceptHandler) and "UnicodeError" in _u(h.type)])), "C32.valid-ip"),
     ("connections are created without the trusted proxy list", _in(HS, "HTTPServer.handle_stream", replace_expr(lambda n: isinstance(n, ast.Attribute) and _u(n) == "self.trusted_downstream", lambda n: ast.Constant(value=None))), "C32.precedence"),
+    ("seeded C32-adv6: X-Forwarded-For split bounded by the number of trusted proxies", _in(HS, AP, replace_expr(lambda n: isinstance(n, ast.Call) and isinstance(n.func, ast.Attribute) and n.func.attr == "split" and _u(n.func.value) == "ip", lambda n: parse_expr("ip.rsplit(',', len(self.trusted_downstream) + 1)"))), "C32.precedence"),
     ("seeded C32-adv5: trusted-hop scan rewritten as a single conditional pop", _in(HS, AP, lambda fn: _seed_single_pop(fn)), "C32.precedence"),
     ("X-Forwarded-For overrides X-Real-Ip", _in(HS, AP, _swap_lookup_order), "C32.precedence"),
     ("list scanned from the left", _in(HS, AP, replace_expr(lambda n: isinstance(n, ast.Call) and _u(n.func) == "reversed", lambda n: n.args[0])), "C32.precedence"),
